@@ -711,7 +711,9 @@ class rrule(rrulebase):
         output = []
         h, m, s = [None] * 3
         if self._dtstart:
-            output.append(self._dtstart.strftime('DTSTART:%Y%m%dT%H%M%S'))
+            # strftime('%Y') does not zero-pad years below 1000 on all platforms
+            output.append('DTSTART:%04d' % self._dtstart.year +
+                          self._dtstart.strftime('%m%dT%H%M%S'))
             h, m, s = self._dtstart.timetuple()[3:6]
 
         parts = ['FREQ=' + FREQNAMES[self._freq]]
@@ -725,7 +727,8 @@ class rrule(rrulebase):
             parts.append('COUNT=' + str(self._count))
 
         if self._until:
-            parts.append(self._until.strftime('UNTIL=%Y%m%dT%H%M%S'))
+            parts.append('UNTIL=%04d' % self._until.year +
+                         self._until.strftime('%m%dT%H%M%S'))
 
         if self._original_rule.get('byweekday') is not None:
             # The str() method on weekday objects doesn't generate
